@@ -24,8 +24,9 @@ theorem addTc_fst (s : Sk) (h a : Nat) : (s.addTc s.curMax h a).1 = s.addT h a :
   · rw [if_pos c5, if_pos c5, apply_ite Prod.fst]
   · rw [if_neg c5, if_neg c5]
 
-/-- the stale-cache defect, for every sketch: a FULL num sketch of the tree type whose cache is 0
-(what `KmerMinHashBTree::builder()…mins(..).build()` makes) ignores every non-zero hash, however small -/
+/-- an explicitly stale cache, for every sketch: a FULL num sketch of the tree type whose cache is 0
+(`KmerMinHashBTree::builder()…mins(..).current_max(0).build()`; before /repo 04873e6 also what the
+builder made without the field) ignores every non-zero hash, however small -/
 theorem addTc_stale_full (s : Sk) (h a : Nat) (hm : s.maxHash = 0) (hfull : s.mins.length = s.num)
     (hne : s.mins ≠ []) (h0 : h ≠ 0) : s.addTc 0 h a = (s, 0) := by
   have hn : s.num ≠ 0 := by
